@@ -1,6 +1,689 @@
-//! C09 — not implemented yet.
+//! C09 — A distributed answer equals the single-node answer.
+//!
+//! Generator: 1–3 Parquet tables (multi-file, tiny row groups, sometimes empty
+//! or with fewer splits than nodes) under a temp directory; a cluster of 1..8
+//! participants with the initiator at a random position, peers reading the
+//! same files or a byte-identical copy under another directory; a statement
+//! from one of two profiles of `sqlgen`:
+//!   * scatter — one block over 1–2 relations with filters, the five mergeable
+//!     aggregates, GROUP BY / HAVING, ORDER BY / LIMIT / OFFSET (the planner
+//!     elects Concat / TwoPhase / TopN, or falls back to gather);
+//!   * gather  — the full grammar (joins of sharded tables, subqueries,
+//!     DISTINCT, COUNT(DISTINCT), set operations, CTEs, derived tables) plus
+//!     window functions added here.
+//! Oracle (engine-vs-engine, it IS the property): `execute_any_distributed`
+//! through the in-process transport vs `ctx.sql` on one node over the same
+//! files: same multiset; with ORDER BY the distributed rows must be a valid
+//! ordering/window of the single-node rows of the statement without
+//! LIMIT/OFFSET (tie groups, DESIGN §3.4). `NotImplemented` is an accepted
+//! refusal. `refsql`'s answer is printed as a third opinion only.
 use super::Property;
+use crate::data::*;
+use crate::engine::run_sql;
+use crate::kf_sql::classify_sql;
+use crate::refsql::{self, Db};
+use crate::runner::*;
+use crate::sqlast::*;
+use crate::sqlgen::*;
+use proptest::prelude::*;
+use serde::{Deserialize, Serialize};
+
+#[path = "c09_cluster.rs"]
+pub mod cluster;
+use cluster::*;
+
+#[derive(Clone, Debug, Serialize, Deserialize)]
+pub struct DistCase {
+    pub tables: Vec<PqTable>,
+    pub cluster: ClusterSpec,
+    pub query: Query,
+    pub features: Vec<String>,
+}
+
+pub fn scatter_profile() -> Profile {
+    Profile::from_spec(
+        "minimal+logic+deep+group_by+having+order_by+limit+nulls_order+joins2+explicit_joins+outer_joins+cross_joins+comma_joins+residual_on+like+in_list_null+is_distinct_from+bool_literals",
+    )
+}
+
+pub fn gather_profile() -> Profile {
+    let mut p = Profile::full();
+    p.max_from = 2;
+    p
+}
+
+fn first_select_mut(b: &mut SetExpr) -> Option<&mut Select> {
+    match b {
+        SetExpr::Select(s) => Some(s),
+        _ => None,
+    }
+}
+pub fn first_select(b: &SetExpr) -> Option<&Select> {
+    match b {
+        SetExpr::Select(s) => Some(s),
+        SetExpr::Op { l, .. } => first_select(l),
+        SetExpr::Nested(q) => first_select(&q.body),
+        SetExpr::Values(_) => None,
+    }
+}
+
+/// Deterministic window functions only (ranking over an ORDER BY, whole-partition
+/// aggregates): the answer must not depend on the arrival order of the rows.
+fn add_window(q: &mut Query, t: &mut Tape, features: &mut Vec<String>) {
+    let Some(sel) = first_select_mut(&mut q.body) else { return };
+    if sel.distinct || sel.group != Group::None || sel.having.is_some() || sel.items.iter().any(|i| matches!(i, Item::Expr(e, _) if e.contains_agg())) {
+        return;
+    }
+    // columns nameable in this block: the qualified columns already used by the projection / filter
+    let mut cols: Vec<Expr> = vec![];
+    for it in &sel.items {
+        if let Item::Expr(e, _) = it {
+            e.walk(&mut |x| {
+                if matches!(x, Expr::Col { rel: Some(_), .. }) && !cols.contains(x) {
+                    cols.push(x.clone());
+                }
+            });
+        }
+    }
+    if cols.is_empty() {
+        return;
+    }
+    let c1 = cols[t.pick(cols.len())].clone();
+    let c2 = cols[t.pick(cols.len())].clone();
+    let call = match t.pick(4) {
+        0 => WindowCall { f: WinF::Rank, args: vec![], partition: if t.chance(50) { vec![c2] } else { vec![] }, order: vec![OrderKey { e: c1, desc: t.chance(40), nulls_first: None }], frame: None },
+        1 => WindowCall { f: WinF::DenseRank, args: vec![], partition: vec![], order: vec![OrderKey { e: c1, desc: false, nulls_first: None }], frame: None },
+        2 => WindowCall { f: WinF::Count, args: vec![], partition: vec![c1], order: vec![], frame: None },
+        _ => WindowCall { f: WinF::Count, args: vec![c2], partition: vec![c1], order: vec![], frame: None },
+    };
+    sel.items.push(Item::Expr(Expr::Win(Box::new(call)), Some("wf_out".into())));
+    features.push("window".into());
+}
+
+pub fn tables_with_layout(max_rows: usize, min_tables: usize, max_tables: usize) -> BoxedStrategy<Vec<PqTable>> {
+    // INTEGER (Int32) columns are rarer than in the default profile: mixed-width COALESCE/NULLIF
+    // arguments are a latent engine type error that only wastes cases here
+    let tp = TableProfile {
+        min_tables,
+        max_tables,
+        max_cols: 4,
+        max_rows,
+        types: vec![ColType::Int, ColType::Int, ColType::Int, ColType::Int, ColType::Int32, ColType::Double, ColType::Double, ColType::Str, ColType::Str, ColType::Date, ColType::Bool],
+        ..TableProfile::default()
+    };
+    (
+        tables_strategy(tp),
+        proptest::collection::vec(tiny_layout_strategy(max_rows), 3),
+        // how many rows each table keeps: all / none (empty table) / very few (fewer splits than nodes)
+        proptest::collection::vec(prop_oneof![7 => Just(usize::MAX), 1 => Just(0usize), 2 => 1usize..4], 3),
+    )
+        .prop_map(|(tables, layouts, keep)| {
+            tables
+                .into_iter()
+                .enumerate()
+                .map(|(i, mut t)| {
+                    t.rows.truncate(keep[i]);
+                    PqTable { table: t, layout: layouts[i].clone() }
+                })
+                .collect()
+        })
+        .boxed()
+}
+
+/// Focused scatter templates (the shapes the M-mutants live in): a two-phase
+/// aggregate that always carries an AVG next to other mergeable aggregates, and
+/// a TopN with LIMIT and (mostly non-zero) OFFSET.
+fn scatter_template(g: &mut Gen, cat: &Catalog, features: &mut Vec<String>) -> Query {
+    let (from, sc, w0) = g.from_clause_n(cat, &[], 2);
+    let col = |c: &ScopeCol| Expr::qcol(&c.rel, &c.name);
+    let mut conds: Vec<Expr> = w0.into_iter().collect();
+    if g.t.chance(55) {
+        features.push("where".into());
+        conds.push(g.bool_expr(&sc, 1, false));
+    }
+    let where_ = conds.into_iter().reduce(Expr::and);
+    let nums: Vec<ScopeCol> = sc.cols.iter().filter(|c| c.ty.is_numeric()).cloned().collect();
+    if g.t.chance(60) && !nums.is_empty() {
+        // two-phase with AVG
+        features.push("group_by".into());
+        features.push("tmpl_avg".into());
+        let nk = g.t.pick(3);
+        let mut items = vec![];
+        let mut keys = vec![];
+        for i in 0..nk {
+            let k = col(&sc.cols[g.t.pick(sc.cols.len())]);
+            if !keys.contains(&k) {
+                items.push(Item::Expr(k.clone(), Some(format!("k{}", i + 1))));
+                keys.push(k);
+            }
+        }
+        if keys.is_empty() {
+            features.push("global_agg".into());
+        }
+        let x = col(&nums[g.t.pick(nums.len())]);
+        items.push(Item::Expr(Expr::agg(AggF::Avg, x.clone()), Some("a1".into())));
+        let mut aliases = vec!["a1".to_string()];
+        for i in 0..g.t.pick(3) {
+            let any = &sc.cols[g.t.pick(sc.cols.len())];
+            let e = match g.t.pick(5) {
+                0 => Expr::count_star(),
+                1 => Expr::agg(AggF::Count, col(any)),
+                2 => Expr::agg(AggF::Sum, col(&nums[g.t.pick(nums.len())])),
+                3 if any.ty != ColType::Bool => Expr::agg(AggF::Min, col(any)),
+                4 if any.ty != ColType::Bool => Expr::agg(AggF::Max, col(any)),
+                _ => Expr::agg(AggF::Avg, col(&nums[g.t.pick(nums.len())])),
+            };
+            let a = format!("a{}", i + 2);
+            items.push(Item::Expr(e, Some(a.clone())));
+            aliases.push(a);
+        }
+        let having = if g.t.chance(25) {
+            features.push("having".into());
+            Some(if g.t.chance(50) { Expr::bin(Expr::agg(AggF::Avg, x), BinOp::Ge, Expr::Lit(Value::Double(0.0))) } else { Expr::bin(Expr::count_star(), BinOp::Gt, Expr::int(g.t.pick(3) as i64)) })
+        } else {
+            None
+        };
+        for i in 0..keys.len() {
+            aliases.push(format!("k{}", i + 1));
+        }
+        let group = if keys.is_empty() { Group::None } else { Group::By(keys) };
+        let mut q = Query::select(Select { distinct: false, items, from, where_, group, having });
+        if g.t.chance(50) {
+            features.push("order_by".into());
+            let n = 1 + g.t.pick(2);
+            for _ in 0..n {
+                let a = aliases[g.t.pick(aliases.len())].clone();
+                if !q.order_by.iter().any(|k| k.e == Expr::col(&a)) {
+                    q.order_by.push(OrderKey { e: Expr::col(&a), desc: g.t.chance(40), nulls_first: if g.t.chance(30) { Some(g.t.chance(50)) } else { None } });
+                }
+            }
+            if g.t.chance(50) {
+                features.push("limit".into());
+                q.limit = Some(g.t.pick(5) as u64);
+                if g.t.chance(50) {
+                    features.push("offset".into());
+                    q.offset = Some(1 + g.t.pick(3) as u64);
+                }
+            }
+        }
+        q
+    } else {
+        // TopN
+        features.push("tmpl_topn".into());
+        features.push("order_by".into());
+        features.push("limit".into());
+        let n = 1 + g.t.pick(3);
+        let mut items = vec![];
+        for i in 0..n {
+            items.push(Item::Expr(col(&sc.cols[g.t.pick(sc.cols.len())]), Some(format!("c{}", i + 1))));
+        }
+        let mut q = Query::select(Select::simple(items, from, where_));
+        let nk = 1 + g.t.pick(n.min(2));
+        for _ in 0..nk {
+            let i = g.t.pick(n);
+            let e = if g.t.chance(25) { Expr::int(i as i64 + 1) } else { Expr::col(&format!("c{}", i + 1)) };
+            if !q.order_by.iter().any(|k| k.e == e) {
+                q.order_by.push(OrderKey { e, desc: g.t.chance(40), nulls_first: if g.t.chance(30) { Some(g.t.chance(50)) } else { None } });
+            }
+        }
+        q.limit = Some(1 + g.t.pick(6) as u64);
+        if g.t.chance(75) {
+            features.push("offset".into());
+            q.offset = Some(1 + g.t.pick(5) as u64);
+        }
+        q
+    }
+}
+
+fn case_strategy(tier: Tier, gather: bool) -> BoxedStrategy<DistCase> {
+    let max_rows = tier.pick(24, 60);
+    (tables_with_layout(max_rows, 1, 3), cluster_strategy(8), proptest::collection::vec(any::<u16>(), 0..200), proptest::collection::vec(any::<u16>(), 8))
+        .prop_map(move |(tables, cluster, tape, wtape)| {
+            let plain: Vec<Table> = tables.iter().map(|t| t.table.clone()).collect();
+            let cat = Catalog::of(&plain);
+            let profile = if gather { gather_profile() } else { scatter_profile() };
+            let mut g = Gen::new(tape, &profile);
+            let templated = !gather && wtape.first().copied().unwrap_or(0) >= 39322; // 40 %
+            let mut extra: Vec<String> = vec![];
+            let mut query = if templated { scatter_template(&mut g, &cat, &mut extra) } else { g.query(&cat, if gather { 2 } else { 0 }).0 };
+            let mut features: Vec<String> = g.features.iter().map(|s| s.to_string()).collect();
+            features.extend(extra);
+            let keep_unreferenced_cte = wtape.last().copied().unwrap_or(0) >= 57344;
+            if gather {
+                let mut t = Tape::new(wtape);
+                if t.chance(20) {
+                    add_window(&mut query, &mut t, &mut features);
+                }
+            }
+            // steer away from the open finding gather-misses-unreferenced-cte-columns (kept in 1 of 8)
+            if unreferenced_cte(&query) && !keep_unreferenced_cte {
+                query.with.clear();
+                features.retain(|f| f != "cte");
+            }
+            DistCase { tables, cluster, query, features }
+        })
+        .boxed()
+}
+
+// ---------------------------------------------------------------------------
+
+pub fn order_keys(q: &Query) -> Option<Vec<KeySpec>> {
+    let sel = first_select(&q.body)?;
+    let names: Vec<Option<&str>> = sel
+        .items
+        .iter()
+        .map(|i| match i {
+            Item::Expr(_, Some(a)) => Some(a.as_str()),
+            Item::Expr(Expr::Col { name, .. }, None) => Some(name.as_str()),
+            _ => None,
+        })
+        .collect();
+    if sel.items.iter().any(|i| matches!(i, Item::Star | Item::QStar(_))) {
+        return None;
+    }
+    let mut out = vec![];
+    for k in &q.order_by {
+        let col = match &k.e {
+            Expr::Lit(Value::Int(i)) if *i >= 1 && (*i as usize) <= names.len() => *i as usize - 1,
+            Expr::Col { rel: None, name } => names.iter().position(|n| *n == Some(name.as_str()))?,
+            _ => return None,
+        };
+        out.push(KeySpec { col, desc: k.desc, nulls_first: k.nulls_first });
+    }
+    Some(out)
+}
+
+pub fn has_avg(q: &Query) -> bool {
+    q.sql().contains("AVG(")
+}
+
+pub fn sql_case_of(c: &DistCase) -> SqlCase {
+    SqlCase { tables: c.tables.iter().map(|t| t.table.clone()).collect(), query: c.query.clone(), cuts: vec![], features: c.features.clone() }
+}
+
+pub fn fmt_case_tables(c: &DistCase) -> String {
+    let mut s = crate::sqlcheck::fmt_tables(&c.tables.iter().map(|t| t.table.clone()).collect::<Vec<_>>());
+    for t in &c.tables {
+        s.push_str(&format!("\n  layout {}: {:?}", t.table.name, t.layout));
+    }
+    s
+}
+
+/// True when the statement defines a CTE that nothing references.
+pub fn unreferenced_cte(q: &Query) -> bool {
+    if q.with.is_empty() {
+        return false;
+    }
+    let mut body = q.clone();
+    body.with = vec![];
+    let text = body.sql();
+    let words: std::collections::BTreeSet<&str> = text.split(|ch: char| !(ch.is_alphanumeric() || ch == '_')).collect();
+    q.with.iter().enumerate().any(|(i, cte)| !words.contains(cte.name.as_str()) && !q.with[i + 1..].iter().any(|later| later.q.sql().split(|ch: char| !(ch.is_alphanumeric() || ch == '_')).any(|w| w == cte.name)))
+}
+
+/// C09-specific known-finding classes (precise signatures; the shared SQL ones follow).
+fn classify_c09(c: &DistCase, cl: &Cluster, shape: &str, single_rows: usize, msg: &str) -> Option<&'static str> {
+    let first = msg.lines().next().unwrap_or("");
+    // merge(): the only active shard is the local one and it returned no batch
+    if first.contains("no shard returned a schema") && single_rows == 0 {
+        return Some("dist-no-schema-when-only-local-shard-is-empty");
+    }
+    // a statement with a latent evaluation type error (mixed-width COALESCE/NULLIF/CASE, WHERE NULL …):
+    // the single node never evaluates it because no batch reaches the expression (empty table,
+    // pruned row groups), a shard hands a zero-row batch to it. Signature: ONE node over in-memory
+    // copies of the same tables (which always deliver a batch) fails with the same kind of error.
+    let type_error = |s: &str| s.contains("same data type") || s.contains("Type error") || s.contains("Cast error") || s.contains("requires boolean") || s.contains("must evaluate to boolean");
+    if first.contains("distributed run fails") && type_error(first) {
+        let plain: Vec<Table> = c.tables.iter().map(|t| t.table.clone()).collect();
+        let ctx = crate::engine::mem_ctx(&plain);
+        let mut unlimited = c.query.clone();
+        unlimited.limit = None;
+        unlimited.offset = None;
+        for q in [&c.query, &unlimited] {
+            if let Err(e) = run_sql(&ctx, &q.sql()) {
+                if type_error(&e) {
+                    return Some("dist-evaluates-ill-typed-expression-on-empty-batch");
+                }
+            }
+        }
+    }
+    // unify(): a shard that returned no rows ships the DECLARED schema of the partial query, a shard
+    // with rows ships the schema of its batches; where the engine's declared type of an expression
+    // differs from the arrays it produces (INTEGER arithmetic declared BIGINT) the merge refuses
+    if first.contains("shards returned incompatible columns") {
+        return Some("dist-empty-shard-declares-a-different-column-type");
+    }
+    if shape == "gather" {
+        if let Some((reads, gaps)) = gather_gaps(&cl.base, &c.query.sql(), &c.tables) {
+            let only_in_sub = reads.tables.values().any(|(m, s)| *s && !*m) || reads.cols.values().any(|(o, f, s)| *s && !*o && !*f);
+            if !gaps.is_empty() && only_in_sub {
+                return Some("gather-misses-subquery-expression-scans");
+            }
+            if !gaps.is_empty() && gaps.iter().all(|g| !g.contains("not gathered")) {
+                return Some("gather-misses-columns-the-optimizer-eliminated");
+            }
+        }
+        if unreferenced_cte(&c.query) && (first.contains("not found") || first.contains("NotFound")) {
+            return Some("gather-misses-unreferenced-cte-columns");
+        }
+    }
+    // VectorizedHashTable::probe_batch indexes the hash buffer with a row number of another batch
+    // (hash_join.rs:556) when a shard feeds the join batches of uneven sizes: an engine panic
+    // (C29's subject) that the single node's scan path does not provoke
+    if first.contains("distributed run PANICS: index out of bounds") && (c.features.iter().any(|f| f.starts_with("join_") || f == "in_subquery" || f == "not_in_subquery" || f == "exists" || f == "scalar_subquery")) {
+        return Some("hash-join-probe-index-out-of-bounds");
+    }
+    if first.contains("runtime filter column is not Int64") {
+        return Some("runtime-filter-on-int32-join-key");
+    }
+    // ShardedParquetTable::statistics scales row_count to the shard but keeps the whole-table
+    // ndv estimates: on a shard "ndv >= rows" reads as "unique key" and GroupKeyReduction drops
+    // real GROUP BY keys from the PARTIAL aggregate. Signature: some shard's optimized plan of the
+    // partial query carries an ANY_VALUE that the partial query text does not.
+    if shape == "two_phase" && shard_plan_has_any_value(cl, &c.query.sql()) {
+        return Some("dist-shard-statistics-fire-group-key-reduction");
+    }
+    // GroupKeyReduction (single node, Parquet footer statistics) rewrote the aggregate on an
+    // *estimated* distinct count: the optimized plan carries an ANY_VALUE the statement never wrote
+    if c.features.iter().any(|f| f == "group_by") {
+        if let Ok(Ok(p)) = std::panic::catch_unwind(std::panic::AssertUnwindSafe(|| cl.base.optimized_plan(&c.query.sql()))) {
+            let text = format!("{}", p).to_lowercase();
+            if text.contains("any_value") || text.contains("anyvalue") {
+                return Some("group-key-reduction-on-estimated-ndv");
+            }
+        }
+    }
+    None
+}
+
+fn shard_plan_has_any_value(cl: &Cluster, sql: &str) -> bool {
+    use query_engine::distributed::coordinator::shard_context;
+    use query_engine::distributed::{assign_lpt, plan_distributed, splits_of};
+    let r = std::panic::catch_unwind(std::panic::AssertUnwindSafe(|| {
+        let Ok(plan) = plan_distributed(&cl.base, sql) else { return false };
+        if plan.partial_sql.to_lowercase().contains("any_value") {
+            return false;
+        }
+        // the whole table already triggers the rewrite: that is the single-node finding
+        if let Ok(p) = cl.base.optimized_plan(&plan.partial_sql) {
+            let t = format!("{}", p).to_lowercase();
+            if t.contains("any_value") || t.contains("anyvalue") {
+                return false;
+            }
+        }
+        let n = cl.participants.len();
+        let Ok(set) = splits_of(&cl.base, &plan.table, n) else { return false };
+        let asg = assign_lpt(&set, n);
+        (0..n).any(|i| match shard_context(&cl.base, &plan.table, &set, &asg, i) {
+            Ok((ctx, _)) => match ctx.optimized_plan(&plan.partial_sql) {
+                Ok(p) => {
+                    let t = format!("{}", p).to_lowercase();
+                    t.contains("any_value") || t.contains("anyvalue")
+                }
+                Err(_) => false,
+            },
+            Err(_) => false,
+        })
+    }));
+    r.unwrap_or(false)
+}
+
+/// Last resort for the gather shape: the distributed result is exactly what ONE node returns
+/// for the statement over in-memory copies of the complete tables. Gathering then lost
+/// nothing; the disagreement is the local engine answering differently over Parquet files
+/// and over in-memory tables (C04's subject).
+fn layout_dependent(c: &DistCase, shape: &str, dist: &Result<Rows, String>) -> bool {
+    if shape != "gather" {
+        return false;
+    }
+    let plain: Vec<Table> = c.tables.iter().map(|t| t.table.clone()).collect();
+    let ctx = crate::engine::mem_ctx(&plain);
+    let mem = run_sql(&ctx, &c.query.sql());
+    match (dist, &mem) {
+        (Ok(d), Ok(m)) => multiset_eq(d, m, 1e-9),
+        (Err(d), Err(m)) => crate::sqlcheck::short_err(d) == crate::sqlcheck::short_err(m) || d.contains(m.as_str()),
+        _ => false,
+    }
+}
+
+pub struct DistEqualsSingle {
+    pub gather: bool,
+}
+
+impl Check for DistEqualsSingle {
+    type Case = DistCase;
+    fn name(&self) -> &'static str {
+        if self.gather {
+            "dist_gather_profile"
+        } else {
+            "dist_scatter_profile"
+        }
+    }
+    fn rule(&self) -> &'static str {
+        "both engines answered, the distributed run used >=2 active shards of some table (shape label recorded: concat/two_phase/top_n/gather; AVG over unequal shards and TopN with OFFSET tracked as labels)"
+    }
+    fn cases(&self, tier: Tier) -> u32 {
+        tier.pick(400, 10_000)
+    }
+    fn max_shrink_iters(&self) -> u32 {
+        600
+    }
+    fn strategy(&self, tier: Tier) -> BoxedStrategy<DistCase> {
+        case_strategy(tier, self.gather)
+    }
+    fn test(&self, c: &DistCase, obs: &mut Obs) -> Verdict {
+        let sql = c.query.sql();
+        let cl = match Cluster::build("c09", &c.tables, &c.cluster) {
+            Ok(cl) => cl,
+            Err(e) => return Verdict::Discard(format!("cluster:{}", crate::sqlcheck::short_err(&e))),
+        };
+        let spec = c.cluster.normalized();
+        obs.label(format!("nodes:{}", spec.nodes));
+        obs.label(if spec.self_pos == 0 { "self:first" } else if spec.self_pos + 1 == spec.nodes { "self:last" } else { "self:middle" });
+        if (0..spec.nodes).any(|i| i != spec.self_pos && spec.copy[i]) {
+            obs.label("peer_on_copy_dir");
+        }
+        if c.tables.iter().any(|t| t.table.rows.is_empty()) {
+            obs.label("empty_table");
+        }
+        for f in &c.features {
+            obs.label(format!("feat:{}", f));
+        }
+        let shape = match planned_shape(&cl.base, &sql) {
+            Ok(s) => s,
+            Err(e) => {
+                obs.label(format!("plan_error:{}", crate::sqlcheck::short_err(&e)));
+                "unplanned"
+            }
+        };
+        obs.label(format!("shape:{}", shape));
+        obs.sample(serde_json::json!({"sql": sql, "shape": shape, "nodes": spec.nodes, "self": spec.self_pos,
+            "tables": c.tables.iter().map(|t| format!("{}({} rows, files at {:?}, rg {})", t.table.name, t.table.rows.len(), t.layout.file_cuts, t.layout.row_group_size)).collect::<Vec<_>>()}));
+
+        // single node
+        let single = match run_sql(&cl.base, &sql) {
+            Ok(r) => r,
+            Err(e) => {
+                obs.label(format!("single_error:{}", crate::sqlcheck::short_err(&e)));
+                return Verdict::Pass;
+            }
+        };
+        // distributed
+        let tr = cl.transport(vec![]);
+        let d = match run_any_distributed(&cl, &sql, &tr) {
+            DistOutcome::Ok(d) => d,
+            DistOutcome::NotImplemented(m) => {
+                obs.label(format!("refused:{}", crate::sqlcheck::short_err(&m)));
+                return Verdict::Pass;
+            }
+            DistOutcome::Err(e) => {
+                let msg = format!("single node answers ({} rows) but the distributed run fails: {}\n sql: {}\n shape: {}\n cluster: {:?}\n tables: {}", single.len(), e, sql, shape, spec, fmt_case_tables(c));
+                return known_or_fail(c, &cl, shape, single.len(), &Err(e), &Default::default(), msg);
+            }
+            DistOutcome::Panic(p) => {
+                let msg = format!("single node answers ({} rows) but the distributed run PANICS: {}\n sql: {}\n shape: {}\n cluster: {:?}\n tables: {}", single.len(), p, sql, shape, spec, fmt_case_tables(c));
+                return known_or_fail(c, &cl, shape, single.len(), &Err(format!("PANIC: {}", p)), &Default::default(), msg);
+            }
+        };
+        let dist = batches_to_rows(&d.result.batches);
+        // activity
+        let mut per_table: std::collections::BTreeMap<&str, usize> = Default::default();
+        for n in &d.distribution.nodes {
+            if n.assigned_splits > 0 {
+                *per_table.entry(n.table.as_str()).or_default() += 1;
+            }
+        }
+        let active = per_table.values().copied().max().unwrap_or(0);
+        obs.label(format!("active_shards:{}", active.min(8)));
+        if active < spec.nodes {
+            obs.label("idle_nodes");
+        }
+        if d.distribution.nodes.iter().any(|n| !n.local && n.assigned_splits > 0) {
+            obs.label("remote_shard_used");
+        }
+        let avg = has_avg(&c.query);
+        if avg && active >= 2 {
+            let rows: Vec<i64> = d.distribution.nodes.iter().filter(|n| n.assigned_splits > 0).map(|n| n.assigned_rows).collect();
+            if rows.iter().any(|r| *r != rows[0]) {
+                obs.label(format!("avg_unequal_shards:{}", shape));
+            }
+        }
+        if shape == "top_n" && c.query.offset.unwrap_or(0) > 0 && active >= 2 {
+            obs.label("topn_offset");
+        }
+        obs.nontrivial(active >= 2);
+
+        let tol = if avg { 1e-9 } else { 0.0 };
+        let cmp: Result<(), String> = if c.query.order_by.is_empty() && c.query.limit.is_none() && c.query.offset.is_none() {
+            if multiset_eq(&single, &dist, tol) {
+                Ok(())
+            } else {
+                Err("row multisets differ".into())
+            }
+        } else {
+            match order_keys(&c.query) {
+                None => {
+                    if c.query.limit.is_none() && c.query.offset.is_none() {
+                        obs.label("order_keys_unresolved");
+                        if multiset_eq(&single, &dist, tol) {
+                            Ok(())
+                        } else {
+                            Err("row multisets differ".into())
+                        }
+                    } else {
+                        return Verdict::Discard("limit_with_unresolved_order".into());
+                    }
+                }
+                Some(keys) => {
+                    let full = if c.query.limit.is_none() && c.query.offset.is_none() {
+                        single.clone()
+                    } else {
+                        let mut q2 = c.query.clone();
+                        q2.limit = None;
+                        q2.offset = None;
+                        match run_sql(&cl.base, &q2.sql()) {
+                            Ok(r) => r,
+                            Err(e) => return Verdict::Discard(format!("single_unlimited:{}", crate::sqlcheck::short_err(&e))),
+                        }
+                    };
+                    let reference = ordered_reference(&full, &keys, c.query.limit, c.query.offset);
+                    if let Err(e) = refsql::compare_answer(&reference, &single, tol) {
+                        // the single node contradicts itself (LIMIT vs no LIMIT): not a distributed matter
+                        obs.label("single_node_inconsistent_with_its_unlimited_answer");
+                        let _ = e;
+                        return Verdict::Discard("single_inconsistent".into());
+                    }
+                    refsql::compare_answer(&reference, &dist, tol)
+                }
+            }
+        };
+        match cmp {
+            Ok(()) => Verdict::Pass,
+            Err(why) => {
+                // third opinion
+                let plain: Vec<Table> = c.tables.iter().map(|t| t.table.clone()).collect();
+                let db = Db::new(&plain);
+                let (opinion, events) = match db.run(&c.query) {
+                    Ok(r) => {
+                        let usable = !(r.sorted_full.is_none() && (r.limit.is_some() || r.offset.is_some()));
+                        let s_ok = usable && refsql::compare_answer(&r, &single, 1e-9).is_ok();
+                        let d_ok = usable && refsql::compare_answer(&r, &dist, 1e-9).is_ok();
+                        (
+                            format!(
+                                "refsql ({} rows) agrees with: {}\n{}",
+                                r.rows.len(),
+                                match (s_ok, d_ok) {
+                                    (true, true) => "both (?)",
+                                    (true, false) => "the SINGLE-NODE answer",
+                                    (false, true) => "the DISTRIBUTED answer",
+                                    (false, false) => "neither",
+                                },
+                                fmt_rows(&r.rows, 30)
+                            ),
+                            db.events.borrow().clone(),
+                        )
+                    }
+                    Err(e) => (format!("refsql: not in dialect ({})", e), db.events.borrow().clone()),
+                };
+                let mut shard_dump = String::new();
+                if std::env::var("C09_DEBUG").is_ok() {
+                    for e in tr.exchanges() {
+                        let rows = query_engine::distributed::coordinator::decode_ipc(&e.body).map(|b| batches_to_rows(&b)).unwrap_or_default();
+                        shard_dump.push_str(&format!("\n  remote shard {} of {} ({} rows announced):\n{}", e.shard_index, e.table, e.rows, fmt_rows(&rows, 40)));
+                    }
+                    for n in &d.distribution.nodes {
+                        shard_dump.push_str(&format!("\n  contribution shard {} table {} local {} splits {} rows_assigned {} result_rows {}", n.shard_index, n.table, n.local, n.assigned_splits, n.assigned_rows, n.result_rows));
+                    }
+                }
+                let msg = format!(
+                    "distributed answer differs from the single-node answer: {}{}\n sql: {}\n shape: {} (ran as {:?}), partial: {}\n final: {:?}\n cluster: {:?}, active shards {}\n single node ({} rows):\n{} distributed ({} rows):\n{} third opinion: {}\n ref-events: {:?}\n tables: {}",
+                    why,
+                    shard_dump,
+                    sql,
+                    shape,
+                    d.distribution.shape,
+                    d.distribution.partial_sql,
+                    d.distribution.final_sql,
+                    spec,
+                    active,
+                    single.len(),
+                    fmt_rows(&single, 30),
+                    dist.len(),
+                    fmt_rows(&dist, 30),
+                    opinion,
+                    events,
+                    fmt_case_tables(c)
+                );
+                known_or_fail(c, &cl, shape, single.len(), &Ok(dist.clone()), &events, msg)
+            }
+        }
+    }
+}
+
+fn known_or_fail(c: &DistCase, cl: &Cluster, shape: &str, single_rows: usize, dist: &Result<Rows, String>, events: &crate::kf_sql::Ev, msg: String) -> Verdict {
+    if let Some(id) = classify_c09(c, cl, shape, single_rows, &msg) {
+        return Verdict::Known { id: id.to_string(), msg };
+    }
+    // gather shape: a mechanism-level signature beats the statement-shape ones
+    if layout_dependent(c, shape, dist) {
+        return Verdict::Known { id: "gather-answer-is-the-local-answer-over-memory-tables".to_string(), msg };
+    }
+    if let Some(id) = classify_sql(&sql_case_of(c), events, &msg) {
+        return Verdict::Known { id: id.to_string(), msg };
+    }
+    Verdict::Fail(msg)
+}
 
 pub fn property() -> Property {
-    Property { id: "C09", level: "exploration", assumptions: &[], checks: vec![] }
+    Property {
+        id: "C09",
+        level: "exploration",
+        assumptions: &[
+            "the in-process FragmentTransport reproduces the HTTP exchange (JSON request, execute_fragment on a peer context over the same or byte-identical files, encode_ipc, x-qe-rows) without a socket",
+            "ORDER BY keys of generated statements are output columns, so ordering is checked on the returned rows; LIMIT/OFFSET answers are judged against the tie groups of the single node's un-limited answer",
+            "doubles are multiples of 0.25 (sums exact in any order); AVG is compared with relative tolerance 1e-9",
+            "a NotImplemented refusal is an accepted outcome; any other distributed error on a statement the single node answers is a violation",
+        ],
+        checks: vec![Box::new(DistEqualsSingle { gather: false }), Box::new(DistEqualsSingle { gather: true })],
+    }
 }
